@@ -30,7 +30,13 @@ impl Utf16Decoder {
 
     pub fn additional_from_state(&self) -> usize {
         1 + if self.lead_byte.is_some() { 1 } else { 0 }
-            + if self.lead_surrogate == 0 { 0 } else { 2 }
+            + if self.lead_surrogate == 0 && !self.pending_bmp {
+                0
+            } else {
+                // Pending lead surrogate or pending BMP character
+                // (which can be U+0000).
+                2
+            }
     }
 
     pub fn max_utf16_buffer_length(&self, byte_length: usize) -> Option<usize> {
